@@ -25,6 +25,7 @@ S_TYPES = {
     "S0": "nat",
     "SS": "pair (sapling_state 8) (sapling_state 8)",
     "SB": "pair (big_map nat nat) (sapling_state 8)",
+    "SO": "big_map (or nat string) nat",
 }
 BEGIN_LIT = {
     "S2": ["(Pair {} {})", "(Pair { Elt 1 2 } {})", "(Pair {} { Elt 5 6 ; Elt 7 8 })", "(Pair 7 {})", "(Pair 7 8)", "(Pair {} 3)"],
@@ -32,6 +33,7 @@ BEGIN_LIT = {
     "S0": ["5", "0"],
     "SS": ["(Pair {} {})"],
     "SB": ["(Pair {} {})", "(Pair { Elt 1 2 } {})"],
+    "SO": ["{}", "{ Elt (Left 1) 2 }", "{ Elt (Left 1) 2 ; Elt (Right \"a\") 3 }"],
 }
 BODIES = {
     "S2": [
@@ -62,6 +64,14 @@ BODIES = {
         ["DROP", "SAPLING_EMPTY_STATE 8", "SAPLING_EMPTY_STATE 8", "PAIR", "NIL operation", "PAIR"],
         ["CDR", "UNPAIR", "DROP", "SAPLING_EMPTY_STATE 8", "PAIR", "NIL operation", "PAIR"],
     ],
+    "SO": [   # keys of a sum type: set, read and unset across cells
+        ["CDR", "PUSH (option nat) (Some 7)", "PUSH (or nat string) (Left 1)", "UPDATE", "PUSH (option nat) None",
+         "PUSH (or nat string) (Left 1)", "UPDATE", "NIL operation", "PAIR"],
+        ["CDR", "PUSH (option nat) (Some 5)", "PUSH (or nat string) (Right \"a\")", "UPDATE", "DUP", "PUSH (or nat string) (Right \"a\")", "GET",
+         "DROP", "PUSH (option nat) None", "PUSH (or nat string) (Right \"a\")", "UPDATE", "NIL operation", "PAIR"],
+        ["CDR", "PUSH (option nat) (Some 9)", "PUSH (or nat string) (Left 2)", "UPDATE", "NIL operation", "PAIR"],
+        ["CDR", "PUSH (option nat) None", "PUSH (or nat string) (Left 1)", "UPDATE", "NIL operation", "PAIR"],
+    ],
     "SB": [
         ["CDR", "UNPAIR", "PUSH (option nat) (Some 7)", "PUSH nat 1", "UPDATE", "PAIR", "NIL operation", "PAIR"],
         ["DROP", "SAPLING_EMPTY_STATE 8", "EMPTY_BIG_MAP nat nat", "PUSH (option nat) (Some 1)", "PUSH nat 0", "UPDATE", "PAIR",
@@ -76,6 +86,8 @@ FREE = [
     ["PATCH AMOUNT 5"], ["PATCH NOW 100"], ["PATCH BALANCE 77"], ["PATCH AMOUNT"], ["DROP_ALL"], ["DUMP"],
     ["PUSH string \"a\""], ["UNIT"], ["PUSH nat 1", "SOME"], ["SAPLING_EMPTY_STATE 8"], ["SAPLING_EMPTY_STATE 8"],
     ["PUSH nat 1", "PUSH nat 2", "DIP { PUSH nat 3 }"], ["PUSH (list nat) { 1 ; 2 }", "ITER { DROP }"],
+    ["PUSH (or nat string) (Left 1)"], ["PUSH (or nat string) (Left 1)", "COMPARE"], ["PUSH (or nat string) (Right \"a\")"],
+    ["PUSH (option (or nat string)) (Some (Left 1))"],
 ]
 MUTATING = ("UPDATE", "EMPTY_BIG_MAP", "PATCH", "BEGIN", "storage", "parameter", "DROP", "PUSH", "PAIR", "UNPAIR", "CDR", "DUP", "SWAP")
 BAD = {
@@ -101,6 +113,14 @@ BAD = {
     "in-loop": ["PUSH bool True", "LOOP { PUSH nat 1 ; DROP 2 }"],
     "in-lambda": ["LAMBDA unit unit { DIP { UNIT } ; FAILWITH }", "UNIT", "EXEC"],
     "dig-whole-stack": ["PUSH nat 1", "DIG 1"],
+    # failures whose error carries raw bytes / numbers (optimized literals of domain types that do not decode): reporting such an
+    # error may itself go wrong, the session must be restored all the same
+    "bad-key-bytes": ["PUSH key 0x05"],
+    "bad-address-bytes": ["PUSH address 0x05"],
+    "bad-key-hash-bytes": ["PUSH key_hash 0x0500"],
+    "bad-signature-bytes": ["PUSH signature 0x00"],
+    "bad-chain-id-bytes": ["PUSH chain_id 0x00"],
+    "bad-timestamp": ["PUSH timestamp \"yesterday\""],
 }
 
 
@@ -263,7 +283,7 @@ def replay(case):
 # ---- generation ------------------------------------------------------------------------------------------------------
 @st.composite
 def sessions(draw, max_rounds):
-    sk = draw(st.sampled_from(["S2", "S2", "S2", "S1", "S1", "S0", "SS", "SS", "SB"]))
+    sk = draw(st.sampled_from(["S2", "S2", "S2", "S1", "S1", "S0", "SS", "SS", "SB", "SO", "SO"]))
     cells, kinds = [], []
     plan = []  # list of atom lists (each one a successful-by-design cell)
     plan.append(["storage (%s)" % S_TYPES[sk]])
@@ -280,7 +300,7 @@ def sessions(draw, max_rounds):
             start = c
         plan.append(["COMMIT"])
         if draw(st.integers(0, 3)) == 0:
-            sk2 = draw(st.sampled_from(["S2", "S1", "S0", "SS", "SB"]))
+            sk2 = draw(st.sampled_from(["S2", "S1", "S0", "SS", "SB", "SO"]))
             if sk2 != sk:
                 sk = sk2
                 plan.append(["storage (%s)" % S_TYPES[sk]])
